@@ -11,7 +11,7 @@
    outside the model (trusted base).  EDNS0 options and SVCB parameters are held
    as (code, packed value) pairs at this level; their own codecs are modelled in
    Model/Edns.v / Model/Svcb.v. *)
-From Dns Require Export Model.Tables Model.NameWire.
+From Dns Require Export Model.Tables Model.NameWire Model.Options.
 Open Scope N_scope.
 
 Inductive fval :=
@@ -335,7 +335,10 @@ Fixpoint unpack_opts_go (fuel : nat) (msg : bytes) (off : N) (acc : list (N * by
         let optlen := be (take_at msg (off + 2) 2) 0 in
         let off := off + 4 in
         if lenN msg <? off + optlen then Err "overflow"
-        else unpack_opts_go f msg (off + optlen) (acc ++ [(code, take_at msg off optlen, optlen)])
+        else match opt_view code (take_at msg off optlen) with
+             | None => Err "option"             (* the option's own unpack rejects the octets *)
+             | Some (b, l) => unpack_opts_go f msg (off + optlen) (acc ++ [(code, b, l)])
+             end
     else Ok (acc, off)
   end.
 Definition unpack_opts (msg : bytes) (off : N) := unpack_opts_go (S (length msg)) msg off [].
@@ -354,8 +357,12 @@ Fixpoint unpack_svcb_go (fuel : nat) (msg : bytes) (off : N) (last : Z) (acc : l
           let len := be (take_at msg off 2) 0 in
           let off := off + 2 in
           if lenN msg <? off + len then Err "overflow"
-          else if (Z.of_N code <=? last)%Z then Err "svcborder"
-          else unpack_svcb_go f msg (off + len) (Z.of_N code) (acc ++ [(code, take_at msg off len, len)])
+          else match svcb_view code (take_at msg off len) with
+               | None => Err "svcbvalue"
+               | Some (b, l) =>
+                 if (Z.of_N code <=? last)%Z then Err "svcborder"
+                 else unpack_svcb_go f msg (off + len) (Z.of_N code) (acc ++ [(code, b, l)])
+               end
     else Ok (acc, off)
   end.
 Definition unpack_svcb (msg : bytes) (off : N) := unpack_svcb_go (S (length msg)) msg off (-1)%Z [].
